@@ -147,6 +147,24 @@ def run_group(g, scratch, tree):
         text = text.replace("@SRC@", src).replace("@UNITY@", unity)
         for k, v in g.subst.items():
             text = text.replace("@%s@" % k, str(v))
+        if "@L:" in text:
+            rc, so, se, _ = sh(["goto-instrument", "--show-symbol-table", d_gb], timeout=300)
+            syms = re.findall(r"^Symbol\.+: (\S.*)$", so, re.M)
+            bad = []
+            def resolve(m):
+                fn, var = m.group(1), m.group(2)
+                c = [x for x in syms if (x.startswith(fn + "::") or x.startswith(fn + "(")) and x.endswith("::" + var)
+                     and "$" not in x]
+                if len(c) != 1:
+                    bad.append("%s:%s -> %r" % (fn, var, c))
+                    return "UNRESOLVED"
+                return c[0]
+            text = re.sub(r"@L:([^:@]+):([^:@]+)@", resolve, text)
+            if bad:
+                res["status"] = "undecided"
+                res["reason"] = "loop-contract local not found (function renamed or restructured): " + "; ".join(bad)
+                res["wall_s"] = time.time() - t0
+                return res
         with open(lc, "w") as fh:
             fh.write(text)
         i_gb = os.path.join(wd, "i.gb")
@@ -352,6 +370,7 @@ def finish(prop_id, sel, results, tier, seed, level, trusted, assumptions, expla
         n_ok = 0
         canary_ok = True
         n_can = 0
+        n_unknown = 0
         fails = []
         for p in r["props"]:
             if p["desc"].startswith("canary"):
@@ -365,7 +384,11 @@ def finish(prop_id, sel, results, tier, seed, level, trusted, assumptions, expla
             elif p["status"] == "FAILURE":
                 fails.append(p)
             else:
-                undecided.append({"group": r["group"], "reason": "property %s status %s" % (p["id"], p["status"])})
+                n_unknown += 1
+        if n_unknown and not fails:
+            uw = [p["id"] for p in r["props"] if p["status"] == "FAILURE" and "unwind" in p["id"]]
+            undecided.append({"group": r["group"], "reason": "%d properties UNKNOWN (unwinding assertion failed: %s)" % (n_unknown, ", ".join(uw[:4]) or "none listed")})
+            continue
         if n_can == 0 or not canary_ok:
             undecided.append({"group": r["group"], "reason": "vacuity canary %s" % ("missing" if n_can == 0 else "did not fail: harness end unreachable")})
             continue
